@@ -37,50 +37,43 @@ theorem find?_of_mem_nodup : ∀ {rs : List Rule} {r : Rule}, (rs.map (·.denom)
 theorem mem_nonzero {cs : CoinList} {c : Denom × Nat} : c ∈ nonzero cs ↔ c ∈ cs ∧ c.2 ≠ 0 := by
   unfold nonzero; simp [List.mem_filter]
 
-/-- `availableHeight` is below every available coin's quotient -/
-theorem availableHeight_le (rs : List Rule) : ∀ {coins : CoinList} {ah : Nat}, availableHeight rs coins = some ah →
-    ∀ c ∈ coins, ∃ r, rs.find? (fun r => r.denom = c.1) = some r ∧ 0 < r.rpb ∧ r.rpb * ah ≤ c.2
-  | [], _, h => by simp [availableHeight] at h
-  | [(d, n)], ah, h => by
-    unfold availableHeight at h
-    split at h; · cases h
-    rename_i r hr
-    split at h; · cases h
-    rename_i hz
-    split at h; · cases h
-    cases h
-    intro c hc
-    simp only [List.mem_singleton] at hc
-    subst hc
-    exact ⟨r, hr, by omega, Nat.mul_div_le _ _⟩
-  | (d, n) :: c2 :: rest, ah, h => by
-    unfold availableHeight at h
-    split at h
-    · rename_i r m hr hm
-      split at h; · cases h
-      rename_i hz
-      split at h; · cases h
-      cases h
-      have ih := availableHeight_le rs hm
-      intro c hc
-      simp only [List.mem_cons] at hc
-      have hq : r.rpb * (n / r.rpb) ≤ n := Nat.mul_div_le _ _
-      rcases hc with e | e
+theorem mem_denoms_nonzero {cs : CoinList} {d : Denom} (h : d ∈ (nonzero cs).map (·.1)) : d ∈ cs.map (·.1) := by
+  simp only [List.mem_map] at h ⊢
+  obtain ⟨c, hc, e⟩ := h
+  exact ⟨c, (mem_nonzero.mp hc).1, e⟩
+
+/-- on duplicate-free coin lists dropping the zero coins does not change `AmountOf` -/
+theorem amountOf_nonzero : ∀ (cs : CoinList) (d : Denom), (cs.map (·.1)).Nodup → amountOf (nonzero cs) d = amountOf cs d
+  | [], _, _ => rfl
+  | (d0, n) :: t, d, hn => by
+    simp only [List.map_cons, List.nodup_cons] at hn
+    rw [nonzero_cons]
+    by_cases hz : n = 0
+    · subst hz
+      simp only [if_true]
+      by_cases e : d0 = d
       · subst e
-        refine ⟨r, hr, by omega, ?_⟩
-        split
-        · exact hq
-        · rename_i hgt
-          calc r.rpb * m ≤ r.rpb * (n / r.rpb) := Nat.mul_le_mul_left _ (by omega)
-            _ ≤ n := hq
-      · obtain ⟨r2, hr2, hp2, hle2⟩ := ih c (by simpa using e)
-        refine ⟨r2, hr2, hp2, ?_⟩
-        split
-        · rename_i hgt
-          calc r2.rpb * (n / r.rpb) ≤ r2.rpb * m := Nat.mul_le_mul_left _ (by omega)
-            _ ≤ c.2 := hle2
-        · exact hle2
-    · cases h
+        simp only [amountOf, if_true]
+        exact amountOf_eq_zero_of_not_mem _ _ (fun hm => hn.1 (mem_denoms_nonzero hm))
+      · simp only [amountOf, e, if_false]
+        exact amountOf_nonzero t d hn.2
+    · simp only [hz, if_false, amountOf]
+      split
+      · rfl
+      · exact amountOf_nonzero t d hn.2
+
+theorem amountOf_map_rule (f : Rule → Nat) : ∀ (rs : List Rule) (r : Rule), (rs.map (·.denom)).Nodup → r ∈ rs →
+    amountOf (rs.map fun x => (x.denom, f x)) r.denom = f r
+  | [], _, _, h => by simp at h
+  | x :: t, r, hn, h => by
+    simp only [List.map_cons, List.nodup_cons] at hn
+    simp only [List.mem_cons] at h
+    rcases h with e | e
+    · subst e; simp [amountOf]
+    · have hne : x.denom ≠ r.denom := by
+        intro e2; apply hn.1; rw [e2]; exact List.mem_map_of_mem e
+      simp only [List.map_cons, amountOf, hne, if_false]
+      exact amountOf_map_rule f t r hn.2 e
 
 /-- what a rule can still pay from now on when `AdjustPool` computes the new end -/
 def availOf (started : Bool) (remH : Nat) (add : CoinList) (r : Rule) : Nat :=
@@ -92,29 +85,82 @@ theorem availableReward_eq (started : Bool) (remH : Nat) (add : CoinList) (rs : 
   unfold availableReward adjustRules availOf
   cases started <;> simp [List.map_map, amountOf, Function.comp_def]
 
-/-- the new end leaves every rule whose available amount is positive solvent -/
-theorem adjust_ah_le {add rpb : CoinList} {rs : List Rule} {started : Bool} {remH ah : Nat}
-    (hn : (rs.map (·.denom)).Nodup)
-    (h : availableHeight (adjustRules add rpb rs) (availableReward started remH add (adjustRules add [] rs)) = some ah) :
-    ∀ r ∈ rs, availOf started remH add r ≠ 0 → newRpb rpb r * ah ≤ availOf started remH add r := by
-  intro r hr hnz
-  rw [availableReward_eq] at h
-  have hc : (r.denom, availOf started remH add r) ∈ nonzero (rs.map fun r => (r.denom, availOf started remH add r)) := by
-    rw [mem_nonzero]; exact ⟨List.mem_map_of_mem (f := fun r => (r.denom, availOf started remH add r)) hr, hnz⟩
-  obtain ⟨r2, hf, _, hle⟩ := availableHeight_le _ h _ hc
-  -- the rule found is the image of `r`
+/-- `AmountOf` on the available coins is the rule's available amount (0 for a dropped coin) -/
+theorem amountOf_available {started : Bool} {remH : Nat} {add : CoinList} {rs : List Rule} {r : Rule}
+    (hn : (rs.map (·.denom)).Nodup) (hr : r ∈ rs) :
+    amountOf (availableReward started remH add (adjustRules add [] rs)) r.denom = availOf started remH add r := by
+  rw [availableReward_eq, amountOf_nonzero]
+  · exact amountOf_map_rule _ rs r hn hr
+  · simpa [List.map_map, Function.comp_def] using hn
+
+/-- `availableHeight` is non-negative on a non-empty rule list and below every rule's quotient -/
+theorem availableHeight_spec (avail : CoinList) : ∀ {rs : List Rule} {m : Int}, availableHeight avail rs = some m →
+    (rs ≠ [] → 0 ≤ m) ∧ ∀ r ∈ rs, (r.rpb : Int) * m ≤ (amountOf avail r.denom : Int)
+  | [], m, h => by simp [availableHeight] at h; subst h; simp
+  | r :: rs, m, h => by
+    unfold availableHeight at h
+    split at h; · cases h
+    rename_i hz
+    split at h; · cases h
+    split at h; · cases h
+    rename_i m0 hm0
+    obtain ⟨ih0, ih⟩ := availableHeight_spec avail hm0
+    cases h
+    have hq : r.rpb * (amountOf avail r.denom / r.rpb) ≤ amountOf avail r.denom := Nat.mul_div_le _ _
+    have hqi : (r.rpb : Int) * ((amountOf avail r.denom / r.rpb : Nat) : Int) ≤ (amountOf avail r.denom : Int) := by
+      exact_mod_cast hq
+    have hq0 : (0 : Int) ≤ ((amountOf avail r.denom / r.rpb : Nat) : Int) := Int.natCast_nonneg _
+    refine ⟨fun _ => ?_, ?_⟩
+    · split
+      · exact hq0
+      · rename_i hc; omega
+    · intro r' hr'
+      simp only [List.mem_cons] at hr'
+      rcases hr' with e | e
+      · subst e
+        split
+        · exact hqi
+        · rename_i hc
+          have hr0 : (0 : Int) ≤ (r'.rpb : Int) := Int.natCast_nonneg _
+          have : m0 ≤ ((amountOf avail r'.denom / r'.rpb : Nat) : Int) := by omega
+          calc (r'.rpb : Int) * m0 ≤ (r'.rpb : Int) * ((amountOf avail r'.denom / r'.rpb : Nat) : Int) :=
+                Int.mul_le_mul_of_nonneg_left this hr0
+            _ ≤ _ := hqi
+      · have := ih r' e
+        split
+        · rename_i hc
+          have hr0 : (0 : Int) ≤ (r'.rpb : Int) := Int.natCast_nonneg _
+          rcases hc with hc | hc
+          · -- the tail minimum is the sentinel: the tail is empty, contradiction with r' ∈ rs
+            have : rs ≠ [] := by intro e2; rw [e2] at e; cases e
+            have := ih0 this; omega
+          · calc (r'.rpb : Int) * ((amountOf avail r.denom / r.rpb : Nat) : Int) ≤ (r'.rpb : Int) * m0 :=
+                  Int.mul_le_mul_of_nonneg_left (by omega) hr0
+              _ ≤ _ := this
+        · exact this
+
+/-- the new end leaves every rule solvent -/
+theorem adjust_ah_le {add rpb : CoinList} {rs : List Rule} {started : Bool} {remH : Nat} {ah : Int}
+    (hn : (rs.map (·.denom)).Nodup) (hne : rs ≠ [])
+    (h : availableHeight (availableReward started remH add (adjustRules add [] rs)) (adjustRules add rpb rs) = some ah) :
+    0 ≤ ah ∧ ∀ r ∈ rs, (newRpb rpb r : Int) * ah ≤ (availOf started remH add r : Int) := by
+  obtain ⟨h0, hall⟩ := availableHeight_spec _ h
+  have hne' : adjustRules add rpb rs ≠ [] := by
+    intro e; apply hne
+    have := congrArg List.length e
+    simp [adjustRules] at this
+    exact this
+  refine ⟨h0 hne', ?_⟩
+  intro r hr
   have himg : ({ r with total := r.total + amountOf add r.denom, remaining := r.remaining + amountOf add r.denom,
                         rpb := if amountOf rpb r.denom > 0 then amountOf rpb r.denom else r.rpb } : Rule) ∈ adjustRules add rpb rs := by
     unfold adjustRules; exact List.mem_map_of_mem hr
-  have hn' : ((adjustRules add rpb rs).map (·.denom)).Nodup := by rw [adjustRules_denoms]; exact hn
-  have := find?_of_mem_nodup hn' himg
-  simp only at this hf
-  rw [this] at hf
-  cases hf
-  exact hle
+  have := hall _ himg
+  simp only at this
+  rw [amountOf_available hn hr] at this
+  exact this
 
 theorem inv_adjustPool {s s' : State} {sender id add rpb} (hi : Inv s) (hu : isModuleAcc sender = false)
-    (hx : ¬ C06.EndTopUp s (.adjustPool sender id add rpb))
     (h : stepAdjustPool s sender id add rpb = .ok s') : Inv s' := by
   have hst := stakes_adjustPool hi.stakes h
   obtain ⟨p, hsadd, _, _, hp, hat⟩ := stepAdjustPool_ok h
@@ -159,43 +205,23 @@ theorem inv_adjustPool {s s' : State} {sender id add rpb} (hi : Inv s) (hu : isM
   -- the start height used and the span in both modes
   have hstarted : decide (p1.start ≤ s.height) = decide (p.start ≤ s.height) := by rw [hstt]
   -- solvency of every rule at the new end
-  have hsolv : ∀ r ∈ p1.rules, (newRpb rpbL r : Int) * (ah : Int) ≤ (r.remaining : Int) + (amountOf addL r.denom : Int) := by
+  obtain ⟨hah0, hal⟩ := adjust_ah_le (rpb := rpbL) w1.nodup w1.rulesNe hah
+  have hsolv : ∀ r ∈ p1.rules, (newRpb rpbL r : Int) * ah ≤ (r.remaining : Int) + (amountOf addL r.denom : Int) := by
     intro r hr
     have hb := hbud r hr
     rw [ruleBudget_iff] at hb
-    have hal := adjust_ah_le w1.nodup hah r hr
+    have h3 := hal r hr
     by_cases hs : p.start ≤ s.height
     · -- started: available = rpb × remaining span + top-up
       have hsh : sh = s.height := by rw [← hshdef]; simp [hs]
-      rw [hsh] at hal
       have hst2 : decide (p1.start ≤ s.height) = true := by rw [hstarted]; simpa using hs
-      rw [hst2] at hal
+      rw [hsh, hst2] at h3
       have hspan : spanOf p1 = p1.endH - s.height := by
         unfold spanOf; rw [hlast, hstt]; split <;> omega
       rw [hspan] at hb
       have hrem : ((p1.endH - s.height).toNat : Int) = p1.endH - s.height := by omega
-      have havail : availOf true (p1.endH - s.height).toNat addL r ≠ 0 := by
-        unfold availOf
-        simp only [if_true]
-        intro hz
-        have hz1 : r.rpb * (p1.endH - s.height).toNat = 0 := by omega
-        have hz2 : amountOf addL r.denom = 0 := by omega
-        have hpos := w1.rpbPos r hr
-        have hz3 : (p1.endH - s.height).toNat = 0 := by
-          rcases Nat.mul_eq_zero.mp hz1 with h0 | h0
-          · omega
-          · exact h0
-        -- then we are in the excluded class
-        apply hx
-        obtain ⟨r0, hr0, hden0, _⟩ := updOk_rule_origin ok r hr
-        refine ⟨p, hp, ?_, hs, r0, hr0, ?_⟩
-        · rw [hend] at hz3 hact; omega
-        · rw [hadd, ← hden0]; exact hz2
-      have := hal havail
-      unfold availOf at this
-      simp only [if_true] at this
-      have h3 : ((newRpb rpbL r * ah : Nat) : Int) ≤ ((r.rpb * (p1.endH - s.height).toNat + amountOf addL r.denom : Nat) : Int) := by
-        exact_mod_cast this
+      unfold availOf at h3
+      simp only [if_true] at h3
       push_cast at h3
       rw [hrem] at h3
       omega
@@ -203,17 +229,9 @@ theorem inv_adjustPool {s s' : State} {sender id add rpb} (hi : Inv s) (hu : isM
       have hlt : s.height < p1.start := by rw [hstt]; omega
       have hfresh := t1.fresh hlt r hr
       have hst2 : decide (p1.start ≤ s.height) = false := by rw [hstarted]; simpa using hs
-      rw [hst2] at hal
-      have havail : availOf false (p1.endH - sh).toNat addL r ≠ 0 := by
-        unfold availOf
-        simp only [Bool.false_eq_true, if_false]
-        have := w1.totPos r hr
-        omega
-      have := hal havail
-      unfold availOf at this
-      simp only [Bool.false_eq_true, if_false] at this
-      have h3 : ((newRpb rpbL r * ah : Nat) : Int) ≤ ((r.total + amountOf addL r.denom : Nat) : Int) := by
-        exact_mod_cast this
+      rw [hst2] at h3
+      unfold availOf at h3
+      simp only [Bool.false_eq_true, if_false] at h3
       push_cast at h3
       omega
   -- the final record
@@ -405,7 +423,6 @@ theorem inv_adjustPool {s s' : State} {sender id add rpb} (hi : Inv s) (hu : isM
         · cases hm
           refine ⟨pf, gself, hpfe, ?_⟩
           rw [hhe, hh2, ← hne2]
-          have : (0 : Int) ≤ (ah : Int) := Int.natCast_nonneg _
           omega
       · intro i p2 hp2' hlt
         rw [hhe] at hlt
